@@ -3,6 +3,6 @@ CONSTANTS
   Vary = {"sel", "sh", "shk", "mainpos", "keep"}
   Fns = {"Println"}
   Shs = {"-", "toUpper"}
-  ScopeAware = FALSE
+  ScopeAware = TRUE
 INVARIANTS TypeOK Confluent ImportSound Export
 PROPERTIES Stable Terminates
